@@ -270,6 +270,52 @@ main (void)
           fact (halg, m3, B + dl, 0);
           fprintf (out, "]}\n");
         }
+      else if (!strcmp (cmd, "hmacs"))
+        { /* hmacs key msg chunks : HMAC-SHA256 through the streaming interface, message fed in chunks */
+          long kl = unhex (a0, m1), ml = unhex (a1, m2);
+          unsigned char mac[32], d[64], kp[64];
+          HMAC_SHA256_CTX hc;
+          HMAC_SHA256_Init (&hc, m1, (size_t) kl);
+          size_t off = 0;
+          fprintf (out, "{\"e\":\"hmac\",\"alg\":\"sha256\",\"stream\":1,\"chunks\":[");
+          int firstc = 1;
+          for (char *tk = strtok (a2, ","); tk; tk = strtok (0, ","))
+            {
+              size_t c = (size_t) atol (tk);
+              if (off + c > (size_t) ml) c = (size_t) ml - off;
+              HMAC_SHA256_Update (&hc, m2 + off, c);
+              off += c;
+              fprintf (out, "%s%zu", firstc ? "" : ",", c);
+              firstc = 0;
+            }
+          HMAC_SHA256_Final (mac, &hc);
+          fprintf (out, "],\"ctxzero\":%d,\"key\":", all_zero (&hc, sizeof hc));
+          jarr (m1, (size_t) kl);
+          fprintf (out, ",\"msg\":");
+          jarr (m2, (size_t) ml);
+          fprintf (out, ",\"mac\":");
+          jarr (mac, 32);
+          memset (kp, 0, sizeof kp);
+          fprintf (out, ",\"facts\":[");
+          int first = 1;
+          if ((size_t) kl > 64)
+            {
+              fact ("sha256", m1, (size_t) kl, first);
+              first = 0;
+              H ("sha256", m1, (size_t) kl, d);
+              memcpy (kp, d, 32);
+            }
+          else
+            memcpy (kp, m1, (size_t) kl);
+          for (size_t i = 0; i < 64; i++) m3[i] = kp[i] ^ 0x36;
+          memcpy (m3 + 64, m2, (size_t) ml);
+          fact ("sha256", m3, 64 + (size_t) ml, first);
+          H ("sha256", m3, 64 + (size_t) ml, d);
+          for (size_t i = 0; i < 64; i++) m3[i] = kp[i] ^ 0x5c;
+          memcpy (m3 + 64, d, 32);
+          fact ("sha256", m3, 96, 0);
+          fprintf (out, "]}\n");
+        }
       else if (!strcmp (cmd, "pbkdf2"))
         { /* pbkdf2 pass salt c dklen */
           long pl = unhex (a0, m1), sl = unhex (a1, m2);
